@@ -19,6 +19,7 @@ def run(ctx):
     R.floor("CALL-R", 2)
     try:
         from rules import lib_reader
+        lib_reader.check_read_message(ctx, "stream")
         S = lib_reader.check(ctx, "stream")
         if S is not None and "norm" in S:
             lib_reader.sibling_check(ctx, S)
